@@ -182,3 +182,39 @@ Definition check_flavor_conv (e : src * name * option (list csys) * list name * 
   let '(s, m, _, kws, o) := e in
   if s_mom s then true else
     match lookup_conv conv_tab (mom_of s) m kws with Some o' => outcome_eqb (strip o) (strip o') | None => false end.
+
+(* ---- C15: coordinate assignment ---- *)
+Definition generic_name (n : name) : name := match assoc n set_syn with Some g => g | None => n end.
+(* (group index, system, position in the group, partner) of a coordinate name *)
+Definition coord_info (g : name) : option (nat * csys * nat * option name) :=
+  if Pos.eqb g N_x then Some (0, CXY, 0, Some N_y) else if Pos.eqb g N_y then Some (0, CXY, 1, Some N_x)
+  else if Pos.eqb g N_rho then Some (0, CRhoPhi, 0, Some N_phi) else if Pos.eqb g N_phi then Some (0, CRhoPhi, 1, Some N_rho)
+  else if Pos.eqb g N_z then Some (1, CZ, 0, None) else if Pos.eqb g N_theta then Some (1, CTheta, 0, None)
+  else if Pos.eqb g N_eta then Some (1, CEta, 0, None) else if Pos.eqb g N_t then Some (2, CT, 0, None)
+  else if Pos.eqb g N_tau then Some (2, CTau, 0, None) else None.
+Fixpoint replace_nth {A} (i : nat) (x : A) (l : list A) : list A :=
+  match l, i with [], _ => [] | _ :: r, O => x :: r | a :: r, S k => a :: replace_nth k x r end.
+
+Definition check_setter (e : src * name * outcome) : bool :=
+  let '(s, n, o) := e in
+  let g := generic_name n in
+  if negb (Pos.eqb g n) && negb (s_mom s) then true (* synonym on a generic vector: not a coordinate of it *) else
+  match coord_info g with
+  | None => true
+  | Some (grp, sys, pos, partner) =>
+      if Nat.leb (length (s_sys s)) grp then true (* the vector has no such coordinate group *) else
+      match o with
+      | OutVec c sys' cs _ =>
+          ocls_eqb c (gen_cls (s_dim s) (s_mom s)) &&                                  (* class kept *)
+          list_eqb csys_eqb sys' (replace_nth grp sys (s_sys s)) &&                      (* only this group changes system *)
+          Nat.eqb (length cs) (s_dim s) &&
+          let first := match grp with 0 => 0 | 1 => 2 | _ => 3 end in
+          oexpr_eqb (nthx (first + pos) cs) (OKw N_new) &&                              (* reads back exactly *)
+          (match partner with
+           | Some p => is_getter s p (nthx (first + (1 - pos)) cs)                      (* partner = its value before *)
+           | None => true end) &&
+          forallb (fun i => if (Nat.leb first i && Nat.ltb i (first + (match grp with 0 => 2 | _ => 1 end))) then true
+                            else oexpr_eqb (nthx i cs) (OVar 0 i)) (seq 0 (s_dim s))    (* other groups: stored variables untouched *)
+      | _ => false
+      end
+  end.
